@@ -24,7 +24,7 @@ def run(tier, seed):
             if rt.violated == "Coverage":
                 raise vlib.InfraError("the harness did not instantiate every object of the grammar")
             line = rows[l - 1]
-            diff = {k: (line["before"][k], line["after"][k]) for k in line.get("before", {}) if line["before"][k] != line["after"].get(k)} if line["kind"] != "fetch" else line
+            diff = {k: (line["before"][k], line["after"].get(k)) for k in line.get("before", {}) if line["before"][k] != line["after"].get(k)} if line["kind"] != "fetch" else line
             v.violation("wire:%s" % line["kind"], "%s (%s, %s) changes across ToProto/Marshal/Unmarshal/FromProto: %s" % (
                 line["kind"], line["scheme"], line.get("case"), str(diff)[:700]), {"case": line})
         elif rt.status != "ok":
@@ -40,7 +40,7 @@ def run(tier, seed):
         "rule": "every object shape of the TLA+ grammar Wire!Objects (%d shapes: QC, TC, vote, aggregate QC incl. distinct QCs for one block, block, proposal, sync info, timeout "
                 "message; optional parts present/absent; 1/quorum/all signers; empty/one/many commands; extreme views, proposer ids and timestamps) x ECDSA, EdDSA, BLS12 (4 replicas) and BLS12 in a configuration of 67 replicas whose signer classes take the highest ids, built "
                 "with real keys, sent through ToProto/Marshal/Unmarshal/FromProto; projection = hash, bytes-to-sign, participants, fields, verdict of another replica's Authority; "
-                "plus the real RequestBlockQF on honest and lying replies" % ncases,
+                "plus votes, a QC and a TC per scheme decoded by concurrent callers (result = result alone), plus the real RequestBlockQF on honest and lying replies" % ncases,
         "by_kind": kinds, "grammar_shapes": ncases, "checker_cmd": rt.cmd,
     }, time.time() - t0, violations=len(v.violations),
         assumptions=["here TLC enumerates the input grammar and compares projections; the oracle is equality, not a deeper model (DESIGN 6/C12)",
